@@ -488,6 +488,12 @@ example : ∃ sL' sB', BiCGStabL.body exPrm1 stdIp Amgcl.rsqrt (7/10) exA exP 0 
   · cases h
 example := @bicgstabl_L1_init_rel
 
+-- the hypothesis `hsqrt` of the `_of_hsqrt` corollaries is satisfiable: the real square root
+example (prm : BiCGStabL.Params ℝ) :=
+  bicgstabl_mr_minimises_of_hsqrt prm Real.sqrt (fun _ hx => Real.mul_self_sqrt hx)
+example (prm : BiCGStabL.Params ℝ) :=
+  bicgstabl_pass_residual_le_of_hsqrt prm Real.sqrt (fun _ hx => Real.mul_self_sqrt hx)
+
 end examples
 
 end Amgcl.C05h
